@@ -81,7 +81,28 @@ CHECKS["C06"] = dict(
     note=TRUST + "positive normaliser assumed in the sum-to-one clause (observed by the bounded layer); induction over the proved step lemmas; "
          "Hirshfeld and invariances bounded only; recorded finding: nan weights for switching orders >= 8 (underflow).",
     technique="contract-based deductive verification: AST symbolic execution (loop invariant with symbolic trip count, callee contracts, lemma chains), z3; bounded run-time contracts as labelled stand-in")
+CHECKS["C20"] = dict(
+    category="proof",
+    text="Frame obligations: each of the ~160 in-place mutation sites of the 16 library modules (augmented assignment, item assignment, mutating "
+         "method calls, out= arguments) targets storage that the frame analyser proves fresh or owned, using modular function summaries and "
+         "per-class field aliasing; the single write to module state (cache fill) stores the loader's result. The analyser re-reads the real "
+         "source on every run. Bounded layer: byte-wise snapshot monitor over public calls with aliasing scenarios.",
+    design="5, 8/C20",
+    note="NumPy view/copy table; no reflective mutation; scalar-annotated parameters are immutable; results of methods of caller-supplied objects "
+         "and C-extension internals are outside the analysis (bounded monitor only).",
+    technique="contract-based deductive verification of frame conditions: ownership/alias analysis over the real AST with function summaries (obligation per mutation site); bounded snapshot monitor as labelled stand-in")
+CHECKS["C19"] = dict(
+    category="proof",
+    text="(1) ownership: no value reachable from a module-level cache is returned, stored in an instance or passed to code that may keep it, and "
+         "only the cache fill writes module state (frame analyser obligations per function touching a cache); (2) AngularGrid.__init__ executed "
+         "symbolically over cross-method construction histories and cache on/off with the loader as an uninterpreted data source: every instance "
+         "carries the data of its own (method, degree), instances do not share storage, one cache cell per method; (3) set-once scale b: a fixed b is "
+         "never changed and each method's result depends only on (x, rmin, rmax, b); an inferred b is set once. Bounded layer: random call histories.",
+    design="8/C19",
+    note="frame analyser assumptions as for C20; json.load yields lists/dicts; loader = shipped data; histories over everything built from angular grids are bounded only.",
+    technique="contract-based deductive verification: ownership analysis + AST symbolic execution over construction histories (ghost data source), z3; bounded random histories as labelled stand-in")
 BOUNDED_ONLY = {
+    "C05": ("8/C05", "atomic grid structure: shell index table, per-shell scaling/Jacobian/orthogonal image, centre shift, rotation reproducibility, shell extraction, sector map, factorised integrals, every preset file"),
     "C02": ("8/C02", "EXHAUSTIVE: all 450 shipped (method, degree) pairs built five ways; size/degree pair, unit-sphere, exactness for all (l,m) against an own Y_lm oracle (quick: full degree for files <= 16000 points, else l <= 40; thorough: full degree)"),
     "C08": ("8/C08", "real spherical harmonics against a 50+ digit closed-form oracle up to l=20 (thorough 60/90), both implementations, addition theorem, derivatives, solid harmonics, coordinate conversion"),
     "C11": ("8/C11", "PeriodicGrid local grids against brute-force image enumeration for dims 1-3 x 0..dim lattice vectors, skewed/negative/long/short cells, wrapped or not, empty spheres"),
